@@ -306,3 +306,71 @@ def full_decl(ctx):
     else:
         ctx.inconclusive.append("vacuity: parser never completed")
     ctx.sample({"declarations": [d[0] for d in FULL[:6]]})
+
+
+# ---------------------------------------------------------------------------------------
+# O2b: the declaration shown for a function RESULT ("Return Value") is the one the source gives, however header and
+# declaration spell the result name
+# ---------------------------------------------------------------------------------------
+HEADS = [("function tally(items) result(total)", "total"), ("function tally(items) result(Total)", "total"),
+         ("FUNCTION TALLY(ITEMS) RESULT(TOTAL)", "total"), ("pure function tally(items) result(total)", "total"),
+         ("function tally(items)", "tally"), ("FUNCTION TALLY(ITEMS)", "tally"), ("Function Tally(items)", "tally"),
+         ("recursive function tally(items) result(total)", "total")]
+RDECLS = [("integer(kind=8), dimension(3) :: {n}", "integer(kind=8), dimension(3)"), ("INTEGER(KIND=8), DIMENSION(3) :: {N}", "integer(kind=8), dimension(3)"),
+          ("character(len=12) :: {n}", "character(len=12)"), ("character(len=12) :: {C}", "character(len=12)"),
+          ("complex(8) {n}", "complex(kind=8)"), ("type(t) :: {N}", "type(t)"), ("logical, pointer :: {C}", "logical, pointer")]
+
+
+def _rprog(head, decl):
+    return ["module m", "contains", head, "integer :: items", decl, "end function", "end module m"]
+
+
+def _robserve(f):
+    fn = f.modules[0].functions[0]
+    rv = fn.retvar
+    shown = rv.full_declaration if hasattr(rv, "full_declaration") else None
+    return shown, len([v for v in fn.variables])
+
+
+def replay_result(w):
+    f = parserh.parse_concrete(_rprog(w["head"], w["decl"]))
+    shown, nvars = _robserve(f)
+    return (shown or "").lower() != w["expected"].lower() or nvars != 0, {"function": w["head"], "declaration": w["decl"], "ford_return_value": shown,
+                                                  "declared": w["expected"], "other local variables listed": nvars}
+
+
+@obligation("C18", "O2b.result-declaration", engine="SX(CV)", timeout=900)
+def result_decl(ctx):
+    """function header (result clause or not, letter case) x declaration of the result in the body (letter case of the name,
+    type spellings): the return value is shown with the declared type/kind/attributes and is not listed as a local variable"""
+    import ford.sourceform as sf
+
+    ctx.encode_fn(sf.FortranFunction._initialize)
+    ctx.encode_fn(sf.FortranFunction._cleanup)
+    ctx.bounds.update({"headers": len(HEADS), "result declarations": len(RDECLS)})
+
+    def h(E):
+        hd = CV.choice(E, "head", HEADS)
+        dc = CV.choice(E, "decl", RDECLS)
+        decl = choice.apply(lambda d, h_: d[0].replace("{n}", h_[1]).replace("{N}", h_[1].upper()).replace("{C}", h_[1].capitalize()), dc, hd)
+        E.e.snapshot = lambda m: {"head": choice.value_in_model(m, hd)[0], "decl": choice.value_in_model(m, decl),
+                                  "expected": choice.value_in_model(m, dc)[1]}
+        shown, nvars = parserh.parse(_rprog(hd[0], decl), post=_robserve)
+        E.reachable("parsed")
+        # letter case of keywords/attributes is kept as written in the source: compare case-insensitively
+        E.require(choice.apply(lambda g, w_: (g or "").lower() == w_.lower(), shown, dc[1]), "the return value is not shown with its declared type")
+        E.require(choice.apply(lambda k: k == 0, nvars), "the result variable is (also) listed as an ordinary local variable")
+
+    E = sym.Engine(ctx, max_paths=5000, incremental=True)
+    found = E.explore(h)
+    seen = set()
+    for (label, m, pc), snap in zip(found, E.snapshots):
+        if label in seen or not snap:
+            continue
+        seen.add(label)
+        ctx.report(label, snap, replay_result)
+    if E.reached.get("parsed"):
+        ctx.twins += 1
+    else:
+        ctx.inconclusive.append("vacuity: parser never completed")
+    ctx.sample({"paths": E.paths})
